@@ -20,7 +20,8 @@ META = {
         "a checkpoint, through chains three deep and from executed payloads; services created before start, by the "
         "driver, inside payloads, and as replacements for finished, garbage-collected services within one polling "
         "cycle; payloads that wait on a gate opened only after adopt returned (adopt must not wait for them); "
-        "kind=idle: nothing keeps the asyncio loop busy and asyncio payloads are adopted from outside, from a thread payload and "
+        "kind=storm: 40-130 services created (and some dropped) by 2-3 threads while the accept loop polls every 10-20 ms, with delay "
+        "injection also inside the WeakSet that registers the units; kind=idle: nothing keeps the asyncio loop busy and asyncio payloads are adopted from outside, from a thread payload and "
         "from a thread payload that drives a private event loop; kind=window: adoption from outside threads and from inside cleaning-up payloads while a trio payload with "
         "long shielded cleanup keeps the runtime in its shutdown phase. Non-trivial = >= 3 adoptions judged."
     ),
@@ -37,8 +38,9 @@ ARGS = [([], {}), ([1], {}), ([], {"k": 1}), ([1, "two"], {"k": 1}), ([[1, 2]], 
 def plan(tier, seed):
     if tier == "thorough":
         return [dict(seed=seed, shard=i, n=70, kind="steady") for i in range(12)] + [dict(seed=seed, shard="w%d" % i, n=40, kind="window") for i in range(4)] + \
-            [dict(seed=seed, shard="known", n=1, kind="known")] + [dict(seed=seed, shard="idle%d" % i, n=20, kind="idle") for i in range(2)]
-    return [dict(seed=seed, shard="idle", n=6, kind="idle")] + [dict(seed=seed, shard=i, n=6, kind="steady") for i in range(12)] + [dict(seed=seed, shard="w%d" % i, n=5, kind="window") for i in range(4)] + \
+            [dict(seed=seed, shard="known", n=1, kind="known")] + [dict(seed=seed, shard="idle%d" % i, n=20, kind="idle") for i in range(2)] + \
+        [dict(seed=seed, shard="storm%d" % i, n=25, kind="storm") for i in range(2)]
+    return [dict(seed=seed, shard="idle", n=6, kind="idle"), dict(seed=seed, shard="storm", n=6, kind="storm")] + [dict(seed=seed, shard=i, n=6, kind="steady") for i in range(12)] + [dict(seed=seed, shard="w%d" % i, n=5, kind="window") for i in range(4)] + \
         [dict(seed=seed, shard="known", n=1, kind="known")]
 
 
@@ -215,6 +217,35 @@ def gen_idle(rnd, spec):
     return {"watchdog": 30, "inject": common.inject_conf(rnd, 0.5), "generations": [gen], "meta": {"kind": "steady", "expected": expected, "idle": True}}
 
 
+def gen_storm(rnd, spec):
+    """Many services created from several threads while the accept loop polls quickly."""
+    gen = {"accept_delay": rnd.choice([0.01, 0.02]), "payloads": [], "services": [], "grace": 0.2}
+    expected = []
+    script = [["wait_running", 10]]
+    n = 0
+    for t in range(rnd.randint(2, 3)):
+        ops = []
+        for j in range(rnd.randint(20, 45)):
+            n += 1
+            flavour = rnd.choice(common.FLAVOURS)
+            sid = "st%d" % n
+            gen["services"].append({"id": sid, "flavour": flavour, "program": rnd.choice([[["sleep", 0.005]], [["beat", 0.05, 3]]])})
+            ops.append(["service", sid])
+            if rnd.random() < 0.3:
+                ops.append(["sleep", rnd.choice([0.0, 0.002, 0.01])])
+            if rnd.random() < 0.15 and j > 3:
+                ops.append(["drop_service", "st%d" % (n - 2)])  # units are collected concurrently as well
+            expected.append("svc:" + sid)
+        script.append(["thread", ops])
+    dropped = {op[1] for step in script if step[0] == "thread" for op in step[1] if op[0] == "drop_service"}
+    expected = [e for e in expected if e[4:] not in dropped]  # a dropped service may or may not have been started
+    script += [["sleep", 1.2], ["quiesce"]]
+    gen["script"] = script
+    conf = common.inject_conf(rnd, 1.0)
+    conf["p_yield"] = 0.5
+    return {"watchdog": 40, "inject": conf, "generations": [gen], "meta": {"kind": "steady", "expected": expected, "storm": True}}
+
+
 def gen_known(rnd, spec):
     """The recorded finding: adopt(flavour=trio) on the asyncio thread while the trio thread is blocked in execute."""
     gen = {"accept_delay": 0.03, "payloads": [], "services": [], "grace": 0.2}
@@ -303,6 +334,13 @@ def judge(case, run, result):
         result.count("adoptions_judged", len(case["meta"]["expected"]))
         if case["meta"].get("idle"):
             result.count("scenarios_with_idle_asyncio_loop")
+        if case["meta"].get("storm"):
+            result.count("service_storms")
+            ended = run.first("accept-ended", gen=0)
+            quiet_ = run.first("quiescent", gen=0)
+            if ended is not None and quiet_ is not None and ended["seq"] < quiet_["seq"]:
+                problems.append(("the runtime ended by itself (%s: %s, cause chain %s) while services were being created from several threads"
+                                 % (ended.get("exc"), ended.get("msg"), ended.get("reach")), None))
         if run.of("gate-passed", gen=0):
             result.count("gated_adopts_returned_before_payload_released", len(run.of("gate-passed", gen=0)))
         if any(p["id"].startswith("burst") for p in gen["payloads"]):
@@ -344,7 +382,7 @@ def execute(case, result):
 def run_shard(spec):
     result = core.Result()
     only = spec.get("only_case")
-    gen = {"steady": gen_steady, "window": gen_window, "known": gen_known, "idle": gen_idle}[spec["kind"]]
+    gen = {"steady": gen_steady, "window": gen_window, "known": gen_known, "idle": gen_idle, "storm": gen_storm}[spec["kind"]]
     for i in range(spec["n"]):
         if only is not None and i != only:
             continue
@@ -360,7 +398,7 @@ def run_shard(spec):
 
 def finish(total, tier):
     need = ["adoptions_judged", "starts_exactly_once_asyncio", "starts_exactly_once_trio", "starts_exactly_once_threading", "services_started_exactly_once",
-            "gated_adopts_returned_before_payload_released", "scenarios_with_idle_asyncio_loop", "scenarios_with_bursts", "scenarios_with_replaced_services",
+            "gated_adopts_returned_before_payload_released", "scenarios_with_idle_asyncio_loop", "service_storms", "scenarios_with_bursts", "scenarios_with_replaced_services",
             "window_adopts_judged", "adopts_in_shutdown_window_inside", "adopts_in_shutdown_window_outside"]
     for name in need:
         if not total.counters.get(name) and not total.violations:
